@@ -669,6 +669,17 @@ func (c *codecV2) DecodeResponse(req *tikvrpc.Request, resp *tikvrpc.Response) (
 		if err != nil {
 			return nil, err
 		}
+		// The responses of the tasks batched into the request carry their own region errors and lock descriptions.
+		for _, br := range r.BatchResponses {
+			br.RegionError, err = c.decodeRegionError(br.RegionError)
+			if err != nil {
+				return nil, err
+			}
+			br.Locked, err = c.decodeLockInfo(br.Locked)
+			if err != nil {
+				return nil, err
+			}
+		}
 	case tikvrpc.CmdCopStream:
 		return nil, errors.New("streaming coprocessor is not supported yet")
 	case tikvrpc.CmdBatchCop, tikvrpc.CmdMPPTask:
